@@ -425,7 +425,7 @@ def div_exact_kinds(kinds):
     return f
 
 
-DIV_RULES["C17"] = div_exact_kinds({"addr.decode", "addr.deposit"})
+DIV_RULES["C17"] = div_exact_kinds({"addr.decode", "addr.deposit", "addr.verify"})
 DIV_RULES["C20"] = div_exact_kinds({"btc.validateparams"})
 
 
